@@ -47,4 +47,19 @@ PROPS = {
             'quoted-key-over-two-lines', 'implicit-key-longer-than-1024', 'second-root-node', 'bad-escape', 'alias-without-anchor',
             'undeclared-tag-handle', 'repeated-yaml-directive', 'directive-without-document', 'content-after-document-end']],
         assumptions=COMMON_ASSUME + ["only the listed damage classes are generated; nothing is asserted about message or position of the error"]),
+    'C04': dict(
+        rule=("target strings (exhaustively every string of length <= L over the 14-symbol alphabet a SP TAB LF ' \" \\ : # - e-acute emoji NEL , ; "
+              "random longer ones) x {plain, single-quoted, double-quoted} x 9 syntactic contexts x random legal presentations (escape vs "
+              "literal per character, line folding, continuation indentation, escaped breaks); the presentation is generated from the target; "
+              "non-trivial = non-empty target; distinct = distinct (document text, style)"),
+        builds=[('rel', 1.0, 1.0)],
+        must_observe=['presentations_matching', 'style_plain', 'style_single', 'style_double', 'multi_line_presentations', 'escaped_line_breaks'],
+        assumptions=COMMON_ASSUME + ["each rendering is cross-checked with an independent fold/unescape reference before it is used (oracle self-test); mismatches are counted, not reported as violations"]),
+    'C05': dict(
+        rule=("line lists (exhaustively all lists of <= 3 lines over 6 line kinds; random lists of <= 12 lines over 12 kinds) x {literal, folded} x "
+              "{strip, clip, keep} x {auto, explicit} indentation x 7 parent contexts x 5 end-of-input shapes; reference value from YAML 1.2.2 "
+              "section 8.1; non-trivial = at least one non-empty line; distinct = distinct (document text, style)"),
+        builds=[('rel', 1.0, 1.0)],
+        must_observe=['block_scalars_matching', 'chomp_strip', 'chomp_clip', 'chomp_keep', 'explicit_indicator', 'auto_detected', 'eof_no-final-newline', 'content_indent_beyond_buffer'],
+        assumptions=COMMON_ASSUME + ["a content-less scalar is empty under strip and clip (YAML 1.2.2 example 8.6)", "explicit indentation indicators are not generated at the top level (their meaning there is contested)"]),
 }
